@@ -89,6 +89,21 @@ def main():
                     data = open(f, "rb").read()
                     p = os.path.join(tmpd, "f%06d" % k); k += 1
                     open(p, "wb").write(bytes((0x41 if (b == 0 and i < 600) else b) for i, b in enumerate(data))); jobs.append((p, "mutant-filled:" + os.path.basename(f)))
+                    # gentler: only the NUL padding that follows text (a letter or digit) in the first 2 KiB becomes letters - titles, author and
+                    # sample-name fields filled to their last byte, size fields left alone
+                    out = bytearray(data); i = 1; changed = False
+                    while i < min(len(out), 2048):
+                        if out[i] == 0 and chr(out[i - 1]).isalnum():
+                            j = i
+                            while j < len(out) and out[j] == 0 and j - i < 64: j += 1
+                            if j - i >= 2:
+                                out[i:j] = b"x" * (j - i); changed = True
+                            i = j
+                        else:
+                            i += 1
+                    if changed:
+                        p = os.path.join(tmpd, "f%06d" % k); k += 1
+                        open(p, "wb").write(bytes(out)); jobs.append((p, "mutant-padfill:" + os.path.basename(f)))
                 data = open(f, "rb").read()
                 if len(data) > 200000: continue
                 for kind, blob in mutate.mutants(data, rng, *((1, 2, 1) if tier == "quick" else (4, 8, 4))):
